@@ -105,10 +105,12 @@ pub fn run_vec_history<V: VecLike>(rng: &mut Rng, cfg: &HistCfg) -> VecOutcome {
             && !V::RAW
             && V::per_page() > 0
             && matches!(op, VOp::Write | VOp::Flush | VOp::StampedWrite(_) | VOp::Commit(_) | VOp::Reimport)
-            && let Err(m) = crate::c_codec::check_page_index::<V>(&ex)
         {
-            out.failed_at = Some((out.ops.len() - 1, m));
-            break;
+            if let Err(m) = crate::c_codec::check_page_index::<V>(&ex) {
+                out.failed_at = Some((out.ops.len() - 1, m));
+                break;
+            }
+            ex.stats.bump("pages:index_checked");
         }
         if let Some(p) = &cfg.probe
             && (i % p.every == p.every - 1 || i + 1 == n)
@@ -488,4 +490,333 @@ pub fn replay_cfg(prop: &str) -> HistCfg {
         "C20" => HistCfg { probe: Some(ProbeCfg { every: 1, pairs: 12, access: true, values: false }), ..HistCfg::default() },
         _ => HistCfg::default(),
     }
+}
+
+// ---------------------------------------------------------------------------------------------
+// C07: compressed storage is lossless; on-disk page index well-formed
+// ---------------------------------------------------------------------------------------------
+
+fn is_compressed_runner(name: &str) -> bool {
+    name.starts_with("Pco") || name.starts_with("LZ4") || name.starts_with("Zstd") || name.starts_with("Eager<Pco")
+}
+
+pub fn directed_c07() -> Vec<(Vec<VOp>, HistCfg)> {
+    let cfg = HistCfg { check_pages: true, ..HistCfg::default() };
+    // exhaustive (fill, push, truncate) triples around the page boundaries are generated in
+    // `boundary_triples`; these are the named regimes of the write path
+    let mut out = vec![];
+    for pp in [2048usize, 4096, 8192, 16384, 1024, 496, 5461] {
+        // pp = values per page of the element widths in use (8, 4, 2, 1, 16, 33, 3 bytes)
+        out.push((vec![VOp::Push(pp - 1), VOp::Write, VOp::Push(1), VOp::Write, VOp::Push(1), VOp::Write, VOp::Reimport, VOp::Truncate(pp), VOp::Write, VOp::Push(2), VOp::Write, VOp::Reimport], cfg.clone()));
+        out.push((vec![VOp::Push(pp + 1), VOp::Write, VOp::Truncate(pp - 1), VOp::Push(3), VOp::Write, VOp::Truncate(1), VOp::Write, VOp::Reimport, VOp::Push(2 * pp), VOp::Flush, VOp::Reimport], cfg.clone()));
+        out.push((vec![VOp::Push(1), VOp::Write, VOp::Push(1), VOp::Write, VOp::Push(pp - 3), VOp::Write, VOp::Push(1), VOp::Write, VOp::Push(pp), VOp::Write, VOp::Truncate(pp + 1), VOp::Write, VOp::Reimport], cfg.clone()));
+    }
+    out
+}
+
+/// All (fill, push, truncate) triples with each component in {0,1,2, pp-2..pp+2, 2pp-2..2pp+2}:
+/// fill+write, push+write, truncate(+write), push 1 + write, re-import.
+fn boundary_triples(pp: usize) -> Vec<Vec<VOp>> {
+    let mut pts = vec![0usize, 1, 2];
+    for c in [pp, 2 * pp] {
+        pts.extend([c - 2, c - 1, c, c + 1, c + 2]);
+    }
+    let mut out = vec![];
+    for &fill in &pts {
+        for &push in &pts {
+            for &trunc in &pts {
+                let mut ops = vec![];
+                if fill > 0 {
+                    ops.push(VOp::Push(fill));
+                }
+                ops.push(VOp::Write);
+                if push > 0 {
+                    ops.push(VOp::Push(push));
+                }
+                ops.push(VOp::Write);
+                ops.push(VOp::Truncate(trunc));
+                ops.push(VOp::Write);
+                ops.push(VOp::Push(1));
+                ops.push(VOp::Write);
+                ops.push(VOp::Reimport);
+                out.push(ops);
+            }
+        }
+    }
+    out
+}
+
+pub fn check_c07(ctx: &Ctx) -> i32 {
+    let report = Report::new("C07");
+    let make = |rng: &mut Rng, name: &'static str| {
+        if !is_compressed_runner(name) {
+            return None;
+        }
+        Some(HistCfg {
+            nops: rng.range(15, 70),
+            forced: rng.chance(1, 4),
+            big_pushes: true,
+            allow_reset: rng.chance(1, 3),
+            check_pages: true,
+            ..HistCfg::default()
+        })
+    };
+    // exhaustive boundary triples for u64 on the three codecs (and u8/u16 for the larger page
+    // capacities in the thorough tier)
+    let mut triples_run = 0u64;
+    let mut triple_sets: Vec<(&'static str, Runner, usize)> = vec![
+        ("Pco<u64>", run_vec_history::<PcoVec<usize, u64>> as Runner, 2048),
+        ("LZ4<u64>", run_vec_history::<LZ4Vec<usize, u64>> as Runner, 2048),
+        ("Zstd<u64>", run_vec_history::<ZstdVec<usize, u64>> as Runner, 2048),
+    ];
+    if ctx.tier == crate::common::Tier::Thorough {
+        triple_sets.push(("Pco<f32>", run_vec_history::<PcoVec<usize, f32>> as Runner, 4096));
+        triple_sets.push(("LZ4<[u8;16]>", run_vec_history::<LZ4Vec<usize, [u8; 16]>> as Runner, 1024));
+        triple_sets.push(("Zstd<[u8;33]>", run_vec_history::<ZstdVec<usize, [u8; 33]>> as Runner, 496));
+        triple_sets.push(("Pco<u16>", run_vec_history::<PcoVec<usize, u16>> as Runner, 8192));
+    }
+    let cfg0 = HistCfg { check_pages: true, ..HistCfg::default() };
+    let mut triple_stats = Counter::default();
+    for (name, runner, pp) in &triple_sets {
+        let all = boundary_triples(*pp);
+        let n = all.len();
+        let results = run_shards(ctx.threads, |shard| {
+            let mut outs = vec![];
+            for (k, ops) in all.iter().enumerate() {
+                if k % ctx.threads != shard {
+                    continue;
+                }
+                let mut c = cfg0.clone();
+                c.fixed_ops = Some(ops.clone());
+                let mut rng = Rng::new(1);
+                let o = runner(&mut rng, &c);
+                outs.push((k, o));
+            }
+            outs
+        });
+        for outs in results {
+            for (k, o) in outs {
+                triples_run += 1;
+                triple_stats.merge(&o.stats);
+                if let Some((at, m)) = o.failed_at {
+                    report.violation(
+                        ctx,
+                        Violation {
+                            sig: format!("C07|compressed|{}", m.sig),
+                            what: format!("{name}: {}", m.what),
+                            detail: json!({"vector": name, "keep": 0, "forced_import": false, "origin": {"boundary_triple": k}, "failed_at_op": at, "shrunk_ops": vops_json(&o.ops[..=at.min(o.ops.len() - 1)]), "mismatch": m.what}),
+                        },
+                    );
+                }
+            }
+        }
+        triple_stats.add(&format!("triples:{name}"), n as u64);
+    }
+    let c = vec_campaign(ctx, &report, ctx.secs(25.0, 300.0), 7, "C07", &make, &directed_c07());
+    let mut stats = c.stats.clone();
+    stats.merge(&triple_stats);
+    for f in ["Pco", "LZ4", "Zstd"] {
+        for r in ["fast_raw_append", "partial_reencode", "fresh_pages", "boundary_truncate", "truncate_into_page", "raw_to_compressed_transition"] {
+            if stats.get(&format!("regime:{f}:{r}")) == 0 {
+                report.inconclusive(format!("required write regime not reached: {f}:{r}"));
+            }
+        }
+    }
+    if stats.get("pages:index_checked") == 0 {
+        report.harness_error("the on-disk page index was never parsed");
+    }
+    let coverage = json!({
+        "evaluations": c.histories + triples_run,
+        "distinct_nontrivial": c.nontrivial.len() as u64 + triples_run,
+        "rule": "one evaluation = one history on one compressed vector (Pco/LZ4/Zstd x element type); after every operation all values are compared bit-exactly (to_bits for floats: NaN payloads, +-0, subnormals, MIN/MAX) with the reference list, and after every write()/flush/commit/re-import the `<name>_pages` region is read through rawdb and parsed independently: gap-free from the header, every page but the last full and compressed, only the last possibly raw, counts add up to the stored length, data region ends where the last page ends. Boundary triples (fill, push, truncate in {0,1,2,pp-2..pp+2,2pp-2..2pp+2}) are enumerated completely and are all distinct; random histories count as non-trivial with >=4 op kinds and >=2 classified writes",
+        "samples": c.samples,
+        "exhaustive_subspace": {"boundary_triples_per_vector": 13 * 13 * 13, "vectors": triple_sets.iter().map(|t| t.0).collect::<Vec<_>>(), "triples_run": triples_run},
+        "operations_executed": c.ops_total,
+        "page_index_snapshots_parsed": stats.get("pages:index_checked"),
+        "write_regimes": regimes_json(&stats),
+        "ops_by_kind": ops_by_kind(&stats),
+        "histories_per_vector_type": c.per_label.to_json(),
+    });
+    report.finish(ctx, "exploration", coverage, &["vectors up to ~6 pages; value sequences generated (extremes and every special float class included), not exhaustive"])
+}
+
+// ---------------------------------------------------------------------------------------------
+// C08: every read path agrees with the reference contents; C20: no read leaves the region
+// ---------------------------------------------------------------------------------------------
+
+fn api_json(c: &Counter, prefix: &str) -> Value {
+    Value::Object(c.0.iter().filter(|(k, _)| k.starts_with(prefix)).map(|(k, v)| (k[prefix.len()..].to_string(), json!(v))).collect())
+}
+
+pub fn directed_c08() -> Vec<(Vec<VOp>, HistCfg)> {
+    let p = ProbeCfg { every: 1, pairs: 16, access: true, values: true };
+    let cfg = HistCfg { probe: Some(p.clone()), ..HistCfg::default() };
+    let rb = HistCfg { probe: Some(p), rollback: true, keep: 4, allow_reset: false, ..HistCfg::default() };
+    vec![
+        (vec![VOp::Push(3000), VOp::Write, VOp::Push(10), VOp::Truncate(2500), VOp::Push(4), VOp::Write, VOp::Truncate(10), VOp::Reimport], cfg.clone()),
+        (vec![VOp::Push(40), VOp::Write, VOp::Delete(3), VOp::Delete(39), VOp::Update(7), VOp::Push(5), VOp::Delete(42), VOp::Take(0), VOp::Write, VOp::Fill, VOp::Reimport], cfg.clone()),
+        (vec![VOp::Push(10), VOp::Commit(1), VOp::Truncate(5), VOp::Commit(2), VOp::Rollback, VOp::Push(3), VOp::Commit(2), VOp::Rollback, VOp::Rollback], rb.clone()),
+        (vec![VOp::Push(5000), VOp::Commit(1), VOp::Update(100), VOp::Delete(4999), VOp::Commit(2), VOp::Truncate(2048), VOp::Commit(3), VOp::RollbackBefore(2), VOp::Push(1)], rb),
+    ]
+}
+
+fn probe_campaign(ctx: &Ctx, report: &Report, tag: u64, sig: &'static str, secs: f64, values: bool, access: bool) -> VecCampaign {
+    let make = move |rng: &mut Rng, _name: &'static str| {
+        let rollback = rng.chance(1, 3);
+        Some(HistCfg {
+            nops: rng.range(10, 50),
+            rollback,
+            keep: if rollback { rng.range(1, 5) as u16 } else { 0 },
+            forced: rng.chance(1, 5),
+            big_pushes: rng.chance(1, 2),
+            allow_reset: rng.chance(1, 4),
+            probe: Some(ProbeCfg { every: rng.range(1, 4), pairs: rng.range(6, 20), access, values }),
+            ..HistCfg::default()
+        })
+    };
+    let directed: Vec<(Vec<VOp>, HistCfg)> = directed_c08()
+        .into_iter()
+        .map(|(o, mut c)| {
+            if let Some(p) = c.probe.as_mut() {
+                p.values = values;
+                p.access = access;
+            }
+            (o, c)
+        })
+        .collect();
+    // the scan back-end is selected by a size threshold: run with the file-IO back-end forced
+    // (threshold 0 / 64 bytes) and with the default
+    let mut total: Option<VecCampaign> = None;
+    let settings: [(usize, f64); 3] = [(0, 0.35), (64, 0.25), (usize::MAX, 0.4)];
+    for (k, (crossover, share)) in settings.iter().enumerate() {
+        if *crossover == usize::MAX {
+            vecdb::verif::reset_knobs();
+        } else {
+            vecdb::verif::set_mmap_crossover_bytes(*crossover);
+        }
+        let c = vec_campaign(ctx, report, secs * share, tag * 10 + k as u64, sig, &make, &directed);
+        let mut c = c;
+        let n = c.histories;
+        c.stats.add(&format!("backend:crossover={}:histories", if *crossover == usize::MAX { "default".to_string() } else { crossover.to_string() }), n);
+        total = Some(match total {
+            None => c,
+            Some(mut t) => {
+                t.histories += c.histories;
+                t.nontrivial.extend(c.nontrivial);
+                t.stats.merge(&c.stats);
+                t.per_label.merge(&c.per_label);
+                t.samples.extend(c.samples);
+                t.samples.truncate(3);
+                t.ops_total += c.ops_total;
+                t
+            }
+        });
+    }
+    vecdb::verif::reset_knobs();
+    total.unwrap()
+}
+
+pub fn check_c08(ctx: &Ctx) -> i32 {
+    let report = Report::new("C08");
+    let c = probe_campaign(ctx, &report, 8, "C08", ctx.secs(45.0, 420.0), true, false);
+    let states = api_json(&c.stats, "probe:state:");
+    for need in ["clean", "pushed", "truncated", "holes"] {
+        if !c.stats.0.keys().any(|k| k.starts_with("probe:state:") && k.contains(need)) {
+            report.inconclusive(format!("state class never probed: {need}"));
+        }
+    }
+    let api_calls: u64 = c.stats.0.iter().filter(|(k, _)| k.starts_with("api:")).map(|(_, v)| *v).sum();
+    if api_calls == 0 {
+        report.harness_error("no read API was exercised");
+    }
+    let coverage = json!({
+        "evaluations": c.histories,
+        "distinct_nontrivial": c.nontrivial.len(),
+        "rule": "one evaluation = one operation history on one (format, element type) vector during which, every 1-3 operations, every read API (collect, collect_range(_at/_dyn), collect_one, first/last, signed ranges, fold/try_fold incl. early exit, for_each*, read_into (must append), cursor next/advance/fold/get, sorted reads with duplicates and out-of-range tail, min/max/sum, VecReader get/try_get, ZeroCopy read_ref, read-only clone, boxed clone, CachedVec, fold_stored_io/mmap) is driven over a grid of (from,to) pairs (0, +-1 around the stored/buffered boundary, page boundaries, len, len+1, usize::MAX, reversed, random) and compared with the reference contents (logical view for the read-write vector, stored view for stored-only views); a panic is a violation; repeated with the file-IO scan back-end forced (crossover 0 and 64 bytes) and with the default; non-trivial = >=4 op kinds and >=2 classified writes; distinct = hash(vector type, op list)",
+        "samples": c.samples,
+        "operations_executed": c.ops_total,
+        "read_api_calls_compared": api_calls,
+        "api_calls_by_view": api_json(&c.stats, "api:"),
+        "states_probed": states,
+        "backends": api_json(&c.stats, "backend:"),
+        "histories_per_vector_type": c.per_label.to_json(),
+    });
+    report.finish(ctx, "exploration", coverage, &["VecReader::get is only called in range (documented panic otherwise)", "stored-only views are compared with what the last write() stored; after a rollback and before the next write their contents are not judged (only exercised)"])
+}
+
+pub fn check_c20(ctx: &Ctx) -> i32 {
+    let report = Report::new("C20");
+    let c = probe_campaign(ctx, &report, 20, "C20", ctx.secs(40.0, 360.0), true, true);
+    let checked = c.stats.get("access:events_checked");
+    if checked == 0 {
+        report.harness_error("the access tap delivered no event");
+    }
+    let coverage = json!({
+        "evaluations": c.histories,
+        "distinct_nontrivial": c.nontrivial.len(),
+        "rule": "one evaluation = one operation history (C03/C04 style, incl. truncation, rollback across truncating commits, read-only clones) during which the whole read API grid is driven while an observer receives every byte range fetched from the mapping (Access) or the data file (FileRead) on behalf of the vector; each range must lie inside [start, start+len) of one of the vector's own regions (data, page index, holes) as reported by the region metadata at that moment; non-trivial/distinct as in C08",
+        "samples": c.samples,
+        "access_events_checked": checked,
+        "events_by_site": api_json(&c.stats, "access:site:"),
+        "states_probed": api_json(&c.stats, "probe:state:"),
+        "backends": api_json(&c.stats, "backend:"),
+        "operations_executed": c.ops_total,
+    });
+    report.finish(ctx, "exploration", coverage, &["a read site without a tap is invisible to this monitor (value comparison of C08 still sees it when the value is used)", "single-threaded histories"])
+}
+
+// ---------------------------------------------------------------------------------------------
+// C13: a refused request has no effect (rawdb + vecdb halves)
+// ---------------------------------------------------------------------------------------------
+
+pub fn check_c13(ctx: &Ctx) -> i32 {
+    let report = Report::new("C13");
+    let total = ctx.secs(40.0, 360.0);
+    let raw = crate::c_raw::c13_raw_campaign(ctx, &report, total * 0.45);
+    let make = |rng: &mut Rng, _name: &'static str| {
+        // half of the histories are commit/rollback histories (rollback without a usable record is
+        // one of the refusals), the other half C03 histories with refused update / checked push /
+        // import requests sprinkled in
+        let rollback = rng.chance(1, 2);
+        Some(HistCfg {
+            nops: rng.range(20, 90),
+            rollback,
+            refusals: true,
+            keep: if rollback { rng.range(0, 3) as u16 } else { 0 },
+            forced: rng.chance(1, 4),
+            big_pushes: rng.chance(1, 3),
+            allow_reset: rng.chance(1, 3),
+            ..HistCfg::default()
+        })
+    };
+    let directed = vec![
+        (vec![VOp::Push(5), VOp::BadUpdate(5), VOp::BadCheckedPush(4), VOp::BadCheckedPush(6), VOp::Write, VOp::BadImportVersion, VOp::BadImportFormat, VOp::Push(2), VOp::BadUpdate(9), VOp::Reimport, VOp::BadImportVersion, VOp::Push(1), VOp::Reimport], HistCfg { refusals: true, ..HistCfg::default() }),
+        (vec![VOp::Push(5), VOp::Rollback, VOp::Commit(1), VOp::Rollback, VOp::Rollback, VOp::Push(3), VOp::Commit(1), VOp::Commit(2), VOp::Rollback, VOp::Rollback, VOp::Push(1), VOp::Commit(3), VOp::Reimport, VOp::Rollback, VOp::Rollback], HistCfg { refusals: true, rollback: true, keep: 1, ..HistCfg::default() }),
+    ];
+    let c = vec_campaign(ctx, &report, total * 0.45, 13, "C13|vec", &make, &directed);
+    let refused_vec: u64 = c.stats.0.iter().filter(|(k, _)| k.starts_with("refused:")).map(|(_, v)| *v).sum();
+    let refused_raw: u64 = raw.stats.0.iter().filter(|(k, _)| k.starts_with("refused:")).map(|(_, v)| *v).sum();
+    if refused_vec == 0 || refused_raw == 0 {
+        report.harness_error("no refused request was issued");
+    }
+    let mut kinds = serde_json::Map::new();
+    for (k, v) in raw.stats.0.iter().chain(c.stats.0.iter()) {
+        if let Some(r) = k.strip_prefix("refused:") {
+            kinds.insert(r.to_string(), json!(v));
+        }
+    }
+    let mut samples = raw.samples.clone();
+    samples.extend(c.samples.clone());
+    let coverage = json!({
+        "evaluations": refused_vec + refused_raw,
+        "distinct_nontrivial": raw.nontrivial.len() + c.nontrivial.len(),
+        "rule": "one evaluation = one refused request (must return an error) issued inside an ordinary history: rawdb write_at beyond the end, truncate beyond the length, rename onto an existing name, rename/remove of a removed region, remove with a second live handle, remove_region of an unknown name; vecdb update beyond len, checked push at a wrong index, plain import with another version / as another format, rollback with no usable change record. Before and after the refused call a full snapshot is compared (rawdb: model of every region + layout walk; vecdb: start/reserved/len/content hash of every region, file length, change-directory listing, the vector's len/stored_len/stamp/holes/dirty flag/recorded version) and the history then continues under the step-wise model comparison (flush and re-open/re-import included), so later damage is seen as well. distinct_nontrivial = distinct histories (hash of the op list) containing >= 1 refusal and meeting the C01/C03 non-triviality rule",
+        "samples": samples,
+        "refusals_by_kind": kinds,
+        "rawdb_histories": raw.histories,
+        "vecdb_histories": c.histories,
+        "operations_executed": raw.ops_total + c.ops_total,
+        "layout_states_walked": raw.stats.get("layout:states_walked"),
+    });
+    report.finish(ctx, "exploration", coverage, &["refusals are issued in states reached by the C01/C03/C04 generators; I/O errors of the environment are not injected"])
 }
